@@ -494,6 +494,38 @@ def translate(path: str):
             "returnHelixObject(dr=new_dr,phi0=new_phi0,kappa=kappa,dz=new_dz,tanl=tanl,error=new_error,pivot=new_pivot)"]
     if txt != need:
         raise Untranslatable("HelixObject.change_pivot glue changed: " + " | ".join(t for t in txt if t not in need)[:300])
+    # ---- glue of the record / array front-end (_awk_change_pivot): the SAME core is called with r = radius, the per-track columns,
+    # and kappa / tanl / the new pivot are carried into the result unchanged; the error matrix is reshaped per track
+    ac = find_func(tree, "_awk_change_pivot")
+    atxt = [ast.unparse(s).replace(" ", "").replace("\n", "") for s in ac.body if not (isinstance(s, ast.Expr) and isinstance(s.value, ast.Constant))]
+    need_a = ["r=_flat_to_numpy(helix_self.radius)", "old_dr=_flat_to_numpy(helix_self.dr)", "old_phi0=_flat_to_numpy(helix_self.phi0)",
+              "old_dz=_flat_to_numpy(helix_self.dz)", "tanl=_flat_to_numpy(helix_self.tanl)", "kappa=_flat_to_numpy(helix_self.kappa)",
+              "new_dr,new_phi0,new_dz,new_error=_change_pivot(r=r,old_dr=old_dr,old_phi0=old_phi0,old_dz=old_dz,kappa=kappa,tanl=tanl,old_error=old_error,old_pivot=old_pivot,new_pivot=new_pivot)",
+              "ifnew_errorisnotNone:res_dict['error']=new_error",
+              "raw_shape=_extract_index(helix_self.dr.layout)ifis_multi_trkelse[]", "return(res_dict,raw_shape)"]
+    missing = [t for t in need_a if t not in atxt]
+    if missing:
+        raise Untranslatable("_awk_change_pivot glue changed: missing " + " | ".join(missing)[:300])
+    rd = next((t for t in atxt if t.startswith("res_dict={")), "")
+    for frag in ("'dr':new_dr", "'phi0':new_phi0", "'kappa':kappa", "'dz':new_dz", "'tanl':tanl",
+                 "{'x':new_pivot.x,'y':new_pivot.y,'z':new_pivot.z}"):
+        if frag not in rd:
+            raise Untranslatable(f"_awk_change_pivot result record changed: {frag} not found")
+    for cls in ("HelixAwkwardRecord", "HelixAwkwardArray"):
+        for prop, callee in (("radius", "returnkappa_to_radius(self.kappa)"), ("charge", "returnkappa_to_charge(self.kappa)")):
+            f = find_func(tree, prop, cls)
+            t = [ast.unparse(s).replace(" ", "") for s in f.body if not (isinstance(s, ast.Expr) and isinstance(s.value, ast.Constant))]
+            if t != [callee]:
+                raise Untranslatable(f"{cls}.{prop} glue changed: {t}")
+        for prop, first in (("momentum", "pt,phi,pz=_compute_momentum(self.kappa,self.tanl,self.phi0)"),):
+            f = find_func(tree, prop, cls)
+            t = [ast.unparse(s).replace(" ", "") for s in f.body if not (isinstance(s, ast.Expr) and isinstance(s.value, ast.Constant))]
+            if not t or t[0] != first or "ak.zip({'pt':pt,'phi':phi,'pz':pz},with_name='Momentum3D')" not in t[-1]:
+                raise Untranslatable(f"{cls}.{prop} glue changed: {t}")
+        f = find_func(tree, "position", cls)
+        t = [ast.unparse(s).replace(" ", "") for s in f.body if not (isinstance(s, ast.Expr) and isinstance(s.value, ast.Constant))]
+        if not t or not t[0].startswith("x,y,z=_compute_position(self.dr,self.phi0,self.dz") or "ak.zip({'x':x,'y':y,'z':z},with_name='Vector3D')" not in t[-1]:
+            raise Untranslatable(f"{cls}.position glue changed: {t}")
     return out
 
 
